@@ -264,6 +264,15 @@ def run_impl(case, tag="x"):
         pub = nt.getDoubleTopic("/components/%s/state/%s_duration" % (cname, sname(int(k)))).publish()
         pub.set(v / TPS)
         _pubs.append(pub)
+    # the base class of a split machine is a StateMachine class of its own: when it can be instantiated (it has a first
+    # state), somebody may well have done so before the subclass is used (a robot with `feeder: Feeder` and
+    # `gentle: GentleFeeder(Feeder)`) -- nothing of the base instance may reach the machine under test
+    B = C.__mro__[1]
+    if B.__name__.startswith("GenBase") and (case.get("split", 0) + len(case["hist"])) % 2 == 0:
+        try:
+            B()
+        except Exception:      # noqa: a base without a first state is not instantiable, that is fine
+            pass
     twin = case.get("twin")
     m2 = None
     if twin:
@@ -486,6 +495,7 @@ def oracle(case, obs):
     mstopped = True          # done() ran and no regular / must_finish state has run since (the oracle's own view)
     dflt_fresh = True        # the default state, when it runs next, is newly entered (something else was entered / done() ran since)
     maxclk = -1
+    run_tm = None            # tm of the previous state-function call of the current run (None after done())
     nonneg_durs = all((v["dur"] or 0) >= 0 for v in st.values())
     for opi, (op, (evs, is_exec, cur)) in enumerate(zip(case["hist"], obs)):
         kind = op[0]
@@ -559,6 +569,7 @@ def oracle(case, obs):
                 entered_last = e[1]
                 dflt_fresh = True
             elif e[0] == "done":
+                run_tm = None
                 has_state = False
                 seen_done = True
                 entered_last = None
@@ -593,6 +604,12 @@ def oracle(case, obs):
                     out.append(("C03", "op %d %r: tm of s%d is negative (%d ticks)" % (opi, op, s, tm)))
                 if not offc and nonneg_durs and eng and isinstance(tm, int) and isinstance(stm, int) and stm > tm:
                     out.append(("C03", "op %d %r: s%d got state_tm (%d) > tm (%d): parameters mixed up" % (opi, op, s, stm, tm)))
+                if not offc and eng and isinstance(tm, int):
+                    # tm is the time since the machine last started: within one run (no done() in between) it cannot go backwards
+                    if run_tm is not None and tm < run_tm:
+                        out.append(("C03", "op %d %r: tm of s%d went backwards within one run of the machine (%d -> %d ticks, no done() "
+                                           "in between): tm is the time since the machine last started" % (opi, op, s, run_tm, tm)))
+                    run_tm = tm
                 if init is not None and not isinstance(init, bool):
                     out.append(("C03", "op %d %r: initial_call of s%d is not a bool: %r" % (opi, op, s, init)))
                 if init is not None and s != default:
@@ -638,6 +655,7 @@ def oracle(case, obs):
         if prev_exec and not is_exec and ndone == 0:
             out.append(("C04", "op %d %r: the machine stopped without done() being invoked" % (opi, op)))
         if kind in ("done", "ondisable", "adisable"):
+            run_tm = None
             dflt_fresh = True        # the machine is stopped through done(): the default state is entered anew afterwards
             if (is_exec or cur is not None) and not offc:
                 out.append(("C04", "op %d %r: after done()/on_disable() is_executing=%s current_state=%r" % (opi, op, is_exec, cur)))
